@@ -176,6 +176,11 @@ def discharge(u, ob, cxs, st):
                 ob.status = "D1" if v.is_const() else "D2"
                 ob.how = "%s in [%d, %d] (%s/%s)" % (op, r[0], r[1], h1, h2)
                 return
+            # L-ALLOC (assumption A2): a sum of lengths of distinct simultaneously live buffers plus a small constant
+            if op == "Add" and v.t and all(k[0] == "len" and co == 1 for k, co in v.t.items()) and 0 <= v.c and v.c + A.ALLOC_TOTAL <= r[1]:
+                ob.status, ob.how = "D3", "L-ALLOC: sum of the lengths of %d live buffers + %d; bounded under assumption A2 (live buffers total < 2^62 bytes)" % (len(v.t), v.c)
+                A.USED_LEMMAS["L-ALLOC"] = A.USED_LEMMAS.get("L-ALLOC", 0) + 1
+                return
             # finite-domain evaluation: both operands are functions of one `x % c`
             whole = ("bin", op, a, c)
             lv = A.finite_leaves(whole, cx)
@@ -280,7 +285,10 @@ def prove_false(cx, c, bb):
     if h == "call" and c[1].split("::")[-1] == "is_empty" and c[2]:
         k = cx.len_key(c[2][0])
         me = cx.atom(k, 0, A.LEN_MAX)
-        return cx.prove_le0(A.Lin(1) - me, bb)
+        ok, how = cx.prove_le0(A.Lin(1) - me, bb)
+        if ok:
+            return ok, how
+        return option_payload_nonempty(cx, c[2][0])
     if h == "un" and c[1] == "Not":
         return prove_bool(cx, c[2], bb)
     if h == "bin" and c[1] in ("Eq", "Ne", "Lt", "Le", "Gt", "Ge"):
@@ -302,18 +310,19 @@ def prove_var_bool(cx, c, bb, want):
             if bool(e[1]) != want:
                 # this definition must be unreachable... or it is the short-circuit `false` arm: then the condition fails there
                 ok, h = False, "constant %s arm" % e[1]
-                # the arm is taken only when an earlier conjunct is false: prove that conjunct true at this def's block
-                gs = guards.guards_of(b, d[1])
-                if not gs:
+                # the arm is taken only when an earlier conjunct is false: every edge into this block must be impossible
+                edges = _incoming_edges(cx, d[1])
+                if not edges:
                     return False, h
-                s_, de, tk = gs[-1]
-                tr = guards.truth(tk)
-                if tr is None:
-                    return False, h
-                # the guard leading to this constant must be impossible: prove the opposite at the switch block
-                okk, hh = (prove_bool(cx, de, s_) if not tr else prove_false(cx, de, s_))
-                if not okk:
-                    return False, h
+                for (pb, de, tk) in edges:
+                    if _exhausted(cx, de, tk):
+                        continue      # the `otherwise` arm of a switch over every variant of the enum: unreachable
+                    tr = guards.truth(tk)
+                    if tr is None:
+                        return False, h
+                    okk, hh = (prove_bool(cx, de, pb) if not tr else prove_false(cx, de, pb))
+                    if not okk:
+                        return False, h
             continue
         ok, h = (prove_bool(cx, e, d[1]) if want else prove_false(cx, e, d[1]))
         if not ok:
@@ -321,7 +330,85 @@ def prove_var_bool(cx, c, bb, want):
     return True, "all definitions entail it"
 
 
+def option_payload_nonempty(cx, x):
+    """x = (<Option local>.as Some).0 : every definition of the local is None or Some(v) with len(v) >= 1 where it is made"""
+    while x[0] == "ref":
+        x = x[1]
+    if not (x[0] == "proj" and x[2] == "0" and x[1][0] == "proj" and str(x[1][2]).startswith("as Some") and x[1][1][0] == "var"):
+        return False, "no guard"
+    l = x[1][1][1]
+    ds = cx.defs.get(l, [])
+    if not ds or cx.pdefs.get(l):
+        return False, "no guard"
+    n = 0
+    for d in ds:
+        if d[0] != "stmt":
+            return False, "slot assigned from a call"
+        e = sym.expr_rv(cx.b, d[3]["rv"], stop=(l,))
+        if e[0] == "agg" and str(e[1]).endswith("Option::None"):
+            continue
+        if e[0] == "agg" and str(e[1]).endswith("Option::Some") and e[3]:
+            k = cx.len_key(e[3][0])
+            ok, _h = cx.prove_le0(A.Lin(1) - cx.atom(k, 0, A.LEN_MAX), d[1])
+            if not ok:
+                return False, "slot may receive an empty value"
+            n += 1
+            continue
+        return False, "slot definition not understood"
+    return n > 0, "every Some(v) stored in the slot has len(v) >= 1 where it is stored (%d sites)" % n
+
+
+def _incoming_edges(cx, blk, depth=0):
+    """switch edges that lead into blk, looking back through goto-only blocks: [(switch block, discr expr, taken)] or None"""
+    b = cx.b
+    out = []
+    for pb in cx.preds.get(blk, []):
+        t = b["blocks"][pb]["term"]
+        if t["k"] == "switch":
+            de = sym.expr(b, t["discr"])
+            for v, tgt in t["arms"]:
+                if tgt == blk:
+                    out.append((pb, de, ("eq", v)))
+            if t["otherwise"] == blk:
+                out.append((pb, de, ("ne", [v for v, _ in t["arms"]])))
+        elif t["k"] == "goto" and depth < 4 and not any(st["k"] == "assign" for st in b["blocks"][pb]["stmts"]):
+            sub = _incoming_edges(cx, pb, depth + 1)
+            if not sub:
+                return None
+            out += sub
+        else:
+            return None
+    return out
+
+
+def _exhausted(cx, de, tk):
+    if not (tk[0] == "ne" and de[0] == "discr" and cx.u is not None):
+        return False
+    ty = cx.ty_of(de[1]) or (de[1][2] if de[1][0] == "load" and len(de[1]) > 2 else None)
+    adt = cx.u.adts.get((ty or "").lstrip("&"))
+    if not adt or adt.get("kind") != "Enum":
+        return False
+    n = len(adt["variants"])
+    try:
+        vals = {int(v) for v in tk[1]}
+    except (TypeError, ValueError):
+        return False
+    return vals == set(range(n))
+
+
 def prove_index(cx, base, ix, bb):
+    x = base
+    while x[0] == "ref":
+        x = x[1]
+    if x[0] == "call" and x[1] in ("std::mem::take", "core::mem::take") and len(x) > 4 and x[2] and isinstance(x[4], int):
+        # the taken value has the length the place had when `take` ran: judge the index there (facts at the start of that block)
+        k = cx.len_key(x[2][0])
+        ln = cx.atom(k, 0, A.LEN_MAX)
+        ty = cx.ty_of(ix)
+        if cx.rng(ty) and not any(isinstance(y, tuple) and y and y[0] in ("var", "load") for y in sym.walk(ix)):
+            o, h = cx.prove_le0(cx.lin(ix) - ln + A.Lin(1), x[4], entry=True)
+            return o, "index < len of the value taken (%s)" % h
+        return False, "index into a taken value"
     k = cx.len_key(base)
     ln = cx.atom(k, 0, A.LEN_MAX)
     cx.len_facts(base, k)
@@ -376,6 +463,53 @@ def prove_some(cx, b, r, bb):
             return True, "guarded by is_some"
         if d[0] == "call" and d[1].split("::")[-1] in ("is_none", "is_err") and guards.truth(tk) is False and d[2] and _same_place(d[2][0], x):
             return True, "guarded by !is_none"
+    # L-CORRELATED: guarded by `T.k is Some` where the tuple T gets Some(..) in component k only under `is_some(receiver)`
+    for (s_, d, tk) in gs:
+        if not (d[0] == "discr" and tk == ("eq", "1") and d[1][0] == "proj" and d[1][1][0] == "var" and str(d[1][2]).isdigit()):
+            continue
+        l, comp = d[1][1][1], int(d[1][2])
+        ds = cx.defs.get(l, [])
+        if not ds or cx.pdefs.get(l):
+            continue
+        good = True
+        nsome = 0
+        for df in ds:
+            if df[0] != "stmt":
+                good = False
+                break
+            e = sym.expr_rv(b, df[3]["rv"], stop=(l,))
+            if not (e[0] == "agg" and e[1] == "tuple" and comp < len(e[3])):
+                good = False
+                break
+            c = e[3][comp]
+            if c[0] == "agg" and str(c[1]).endswith("Option::None"):
+                continue
+            if c[0] == "agg" and str(c[1]).endswith("Option::Some"):
+                dom = False
+                for (s2, d2, tk2) in guards.guards_of(b, df[1]):
+                    if d2[0] == "call" and d2[1].split("::")[-1] == "is_some" and guards.truth(tk2) and d2[2] and _same_place(d2[2][0], x):
+                        dom = True
+                if not dom:
+                    good = False
+                    break
+                nsome += 1
+                continue
+            good = False
+            break
+        if not (good and nsome):
+            continue
+        # the receiver place is not written in this function
+        pl = x
+        while isinstance(pl, tuple) and pl and pl[0] == "ref":
+            pl = pl[1]
+        if pl[0] == "call" and pl[2]:
+            pl = pl[2][0]
+        while isinstance(pl, tuple) and pl and pl[0] == "ref":
+            pl = pl[1]
+        path = pl[1] if pl[0] in ("refplace", "load") else None
+        if path is None or cx._mem_writers(path):
+            continue
+        return True, "L-CORRELATED: guarded by component %d of a tuple that is Some only where is_some(%s) held; %s is not written in this function" % (comp, path, path)
     return False, "no guard"
 
 
